@@ -17,7 +17,9 @@ plan('C04',
          Job('c04_var', 'eq', 'plain', quick=300, thorough=6000, shards=(1, 2)),
          Job('c04_var', 'shared_growth', 'asan', quick=40, thorough=200, shards=(1, 2), floor=0.0),
      ],
-     assumptions=COMMON_ASSUME + ['comparisons involving a NONE value anywhere in either operand are not judged (asl defines NONE==NONE as false; the property speaks of numbers, booleans, strings, arrays, objects)',
+     assumptions=COMMON_ASSUME + [
+         'object literals Var{{k,x},{k,y},{k2,z}} may name a key twice: the later value counts and the object has one member per distinct key (what a sequence of property assignments gives)',
+         'comparisons involving a NONE value anywhere in either operand are not judged (asl defines NONE==NONE as false; the property speaks of numbers, booleans, strings, arrays, objects)',
                                   'assignments that would make a container contain itself are excluded, as the property says'])
 T('C04', 'lock-step tagged-tree model with shared containers over random multi-Var histories, under ASan/LSan and at -O2',
   'Runs real Var operation histories and compares every Var (type, accessors, length, children, key enumeration, toString, == over all pairs) with a reference model after each step; '
